@@ -8,11 +8,13 @@ REPO="${VERIF_REPO:-/repo}"
 export CARGO_NET_OFFLINE=true
 export CARGO_TERM_COLOR=never
 mkdir -p "$ROOT/target"
+# E4_TARGET_DIR / VERIF_REPO exist only for mutation demonstrations on a scratch copy of the repository
+TDIR="${E4_TARGET_DIR:-$ROOT/target/apps}"
 LOG="$ROOT/target/build_apps.log"
-( cd "$REPO" && CARGO_TARGET_DIR="$ROOT/target/apps" cargo build --release --offline -p rsadsb_apps >"$LOG" 2>&1 ) || {
+( cd "$REPO" && CARGO_TARGET_DIR="$TDIR" cargo build --release --offline -p rsadsb_apps >"$LOG" 2>&1 ) || {
   echo "MACHINERY: apps build failed (see $LOG)"; tail -30 "$LOG"; exit 2; }
 for b in radar 1090; do
-  [ -x "$ROOT/target/apps/release/$b" ] || { echo "MACHINERY: $ROOT/target/apps/release/$b missing after build"; exit 2; }
+  [ -x "$TDIR/release/$b" ] || { echo "MACHINERY: $TDIR/release/$b missing after build"; exit 2; }
 done
 if [ ! -x "$ROOT/target/h/release/vh" ]; then
   ( cd "$ROOT/harness" && CARGO_TARGET_DIR="$ROOT/target/h" cargo build --release --offline >"$ROOT/target/build_h.log" 2>&1 ) || {
